@@ -335,7 +335,7 @@ static void check_case(const filt *f, uint32_t param, const uint8_t *x, size_t n
 {
 	const int fi = (int)(f - FILTS);
 	scratch_need(n);
-	cur_f = f; cur_param = param; cur_x = x; cur_n = n; case_failed = 0;
+	cur_f = f; cur_param = param; cur_x = x; cur_n = n; case_failed = 0; H_TICK();
 	n_evals++;
 	memcpy(RE, x, n); memcpy(RD, x, n);
 	if (ref_apply(f, 1, param, RE, n) || ref_apply(f, 0, param, RD, n)) { h_fail("infra:reference-refused", "%s param=%u", f->name, param); return; }
@@ -460,7 +460,7 @@ static int hexval(int c) { return c >= '0' && c <= '9' ? c - '0' : c >= 'a' && c
 int main(int argc, char **argv)
 {
 	mallopt(M_MMAP_THRESHOLD, 256 << 20); mallopt(M_TRIM_THRESHOLD, 512 << 20);	// LZMA2 encoders are created by the million: no mmap churn
-	h_init(); h_crash_extra = crash_extra; h_set_init(&seen, 1 << 16); sys_open();
+	h_init(); h_crash_extra = crash_extra; h_set_init(&seen, 1 << 16); sys_open(); h_watchdog(1, 8);	// no filter call on these inputs (at most a few hundred KiB) comes anywhere near 8 s of CPU
 	if (argc >= 5 && !strcmp(argv[1], "case")) {
 		const filt *f = filt_by_name(argv[2]); if (!f) { fprintf(stderr, "unknown filter\n"); return 2; }
 		uint32_t param = (uint32_t)strtoul(argv[3], NULL, 0); const char *hx = argv[4]; size_t n = strlen(hx) / 2;
